@@ -402,6 +402,11 @@ def _gen_wide(tier, seed):
             c.update(n_atoms=int(rng.integers(300, 700)), n_frames=int(rng.integers(1, 4)))  # groups of hundreds of atoms
         if tier == "thorough" and k % 3600 == 7:
             c.update(sub="big", n_frames=130, n_atoms=600, pf="one-field", derived="none", scale_log2=0, pairs="random")
+        if tier == "quick" and k in (11, 12, 13):
+            # millions of frame x pair evaluations behind one call, the cell different in every frame (rectangular twice,
+            # this case's own class once): large enough for any size-dependent code path, several threads in the team
+            c.update(sub="big", n_frames=24, n_atoms=600, pf=("all", "one-field", "all")[k - 11], derived="none", scale_log2=0,
+                     pairs="random", cell=("ortho", "ortho", c["cell"])[k - 11])
         yield c
 
 
@@ -629,7 +634,7 @@ def _run_wide(case, ctx):
         if sub_ == "big":
             pairs = rng.integers(0, na, (130000, 2)).astype(np.int64)
             P = pairs.astype(np.int32)
-            ctx.observe("wide.big_request", f"{nf} frames x {len(pairs)} pairs = {nf * len(pairs)} distances (> 2^24)")
+            ctx.observe("wide.big_request", f"{nf} frames x {len(pairs)} pairs = {nf * len(pairs)} distances" + (" (> 2^24)" if nf * len(pairs) > 2 ** 24 else " (> 10^6)"))
         ctx.observe("wide.periodic_flag", repr(PERIODIC_TRUE[case["ptrue"]]))
         d = md.compute_distances(t, P, periodic=ptrue, opt=True)
         disp = md.compute_displacements(t, P, periodic=ptrue, opt=True)
